@@ -1,5 +1,142 @@
-(* C01  ATT input handling is memory safe and well framed. (work in progress: Examples only) *)
-From BT Require Import Base.ListX AttDb.AttDbModel AttDb.AttDbExamples AttSrv.AttSrvModel AttSrv.AttSrvSpecC01.
+(* C01  ATT input handling is memory safe and well framed.
+   Statements only; proofs live in AttSrv/AttSrvProofsC01.v.
+
+   att_input c st conn pdu out_size (AttSrvModel.v) transcribes server::l2cap_input and its 14 handlers
+   with bounded buffers: None = Fault = an access outside the request / the caller's output buffer or a
+   failing assert() of the code. Hypotheses of the property: 1 <= length pdu, 23 <= out_size. *)
+From BT Require Import Base.ListX AttDb.AttDbModel AttDb.AttDbExamples NQueue.NQueueModel
+  AttSrv.AttSrvModel AttSrv.AttSrvSpecC01 AttSrv.AttSrvProofsC01.
 Local Open Scope N_scope.
-Example C01_wf_nonvacuous : wf cfg_basic3.
-Proof. vm_compute; reflexivity. Qed.
+
+(* ---- (b) + (c): for EVERY configuration (well formed or not), every state, connection and request:
+   whenever l2cap_input returns, the response is at most min( out_size, negotiated MTU ) bytes long and
+   is framed by the request opcode: response opcode = request opcode + 1, or 01 <opcode> <handle> <code>
+   of length 5; nothing for Error Response, Write Command and a Confirmation of length 1;
+   01 <opcode> 00 00 06 for every opcode that is no request of this server. (With the code's 8 bit
+   size counters: they make responses shorter, never longer.) *)
+Theorem C01_length_and_frame :
+  forall c st cid pdu n st' rs k,
+    get_conn st cid = Some k ->
+    att_input c st cid pdu n = Some (st', rs) ->
+    len rs <= N.min n (negotiated_mtu c k) /\ frame_ok pdu rs = true.
+Proof. exact att_input_length_and_frame. Qed.
+Print Assumptions C01_length_and_frame.
+
+(* ---- (a) memory safety: no Fault, in every reachable state *)
+Definition C01_no_fault_full : Prop :=
+  forall c ops cid pdu n, wf c -> (cid < n_conns)%nat -> 1 <= len pdu -> 23 <= n ->
+    att_input c (srv_final c (srv_init c) ops) cid pdu n <> None.
+
+(* refuted: Prepare Write Request on a CCCD handle (corpus configuration `fixed_handles`, handle 15):
+   check_write() hands a null client configuration to the CCCD attribute (assert / null pointer read) *)
+Theorem C01_no_fault_refuted : ~ C01_no_fault_full.
+Proof.
+  intros H. apply (H cfg_fixed_handles [] O [22; 15; 0; 0; 0; 1; 0] 23).
+  - vm_compute. reflexivity.
+  - repeat constructor.
+  - vm_compute. intros X; discriminate X.
+  - vm_compute. intros X; discriminate X.
+  - vm_compute. reflexivity.
+Qed.
+Print Assumptions C01_no_fault_refuted.
+
+(* a second, independent cause: with include_service<> the shifted handle mapping (C04) lets
+   char_declaration_access assert: Read By Type <<Characteristic>> on the corpus configuration `includes` *)
+Theorem C01_no_fault_includes_refuted :
+  wf cfg_includes /\ att_input cfg_includes (srv_init cfg_includes) O [8; 1; 0; 255; 255; 3; 40] 24 = None.
+Proof. split; vm_compute; reflexivity. Qed.
+Print Assumptions C01_no_fault_includes_refuted.
+
+(* what is proved of (a): the opcodes that touch no attribute (Error Response, Exchange MTU, Handle
+   Value Confirmation, every unsupported opcode) never fault, for every configuration and state.
+   MISSING: the eleven attribute requests for configurations without include_service<> and without
+   (shared_write_queue + CCCD); the tie (ASan/UBSan, asserts on) covers them, no theorem does. *)
+Theorem C01_no_fault_partial :
+  forall c st cid pdu n k op,
+    get_conn st cid = Some k -> rd pdu 0 = Some op ->
+    23 <= N.min n (negotiated_mtu c k) ->
+    forallb (fun x => negb (op =? x)) [4; 6; 8; 10; 12; 14; 16; 18; 82; 22; 24] = true ->
+    att_input c st cid pdu n <> None.
+Proof. exact att_input_no_fault_simple. Qed.
+Print Assumptions C01_no_fault_partial.
+
+(* ---- (c') list shaped responses hold a positive whole number of entries *)
+Definition C01_framing_full : Prop :=
+  forall c ops cid pdu n st' rs, wf c ->
+    att_input c (srv_final c (srv_init c) ops) cid pdu n = Some (st', rs) -> frame_list_ok rs = true.
+
+(* MTU 300 (corpus configuration `mtu300`): four 64 byte values are 264 bytes of attribute data;
+   collect_attributes::size() is std::uint8_t, the response is cut to 10 bytes: 09 42 + 8 bytes *)
+Theorem C01_framing_large_mtu_refuted : ~ C01_framing_full.
+Proof.
+  intros H. assert (W : wf cfg_mtu300) by (vm_compute; reflexivity).
+  destruct (att_input cfg_mtu300 (srv_final cfg_mtu300 (srv_init cfg_mtu300) [OpIn O [2; 44; 1] 300]) O [8; 1; 0; 255; 255; 0; 42] 300)
+    as [[st' rs]|] eqn:E; [|vm_compute in E; discriminate E].
+  specialize (H _ _ _ _ _ _ _ W E). vm_compute in E. injection E as _ <-. vm_compute in H. discriminate H.
+Qed.
+Print Assumptions C01_framing_large_mtu_refuted.
+
+(* a range inside a gap of the handle space (corpus configuration `fixed_handles`, 7..7): the Find
+   Information Response is 05 01 without any entry *)
+Theorem C01_framing_empty_list_refuted :
+  wf cfg_fixed_handles /\
+  exists st', att_input cfg_fixed_handles (srv_init cfg_fixed_handles) O [4; 7; 0; 7; 0] 23 = Some (st', [5; 1]).
+Proof. split; [vm_compute; reflexivity|]. eexists. vm_compute. reflexivity. Qed.
+Print Assumptions C01_framing_empty_list_refuted.
+
+(* ---- non-vacuity: a three service configuration; the requests of the Examples are answered *)
+Example C01_wf_nonvacuous : wf cfg_basic3 /\ wf cfg_values /\ wf cfg_mtu300.
+Proof. repeat split; vm_compute; reflexivity. Qed.
+
+Example C01_read_by_group_type_basic3 :
+  exists st', att_input cfg_basic3 (srv_init cfg_basic3) O [16; 1; 0; 255; 255; 0; 40] 23
+              = Some (st', [17; 6; 1; 0; 8; 0; 16; 24]).
+Proof. eexists. vm_compute. reflexivity. Qed.
+
+(* the monitor is not trivially accepting *)
+Example C01_monitor_rejects_fault :
+  monitor cfg_basic3 [(OpIn O [10; 3; 0] 23, OFault)] = Some (O, t_fault).
+Proof. vm_compute. reflexivity. Qed.
+
+Example C01_monitor_rejects_long_response :
+  monitor cfg_basic3 [(OpIn O [10; 3; 0] 23, OBytes (11 :: repeat 0 23))] = Some (O, t_length).
+Proof. vm_compute. reflexivity. Qed.
+
+Example C01_monitor_tracks_mtu :
+  monitor cfg_mtu300 [(OpIn O [2; 44; 1] 300, OBytes [3; 44; 1]); (OpIn O [10; 3; 0] 300, OBytes (11 :: repeat 0 64))] = None
+  /\ monitor cfg_mtu300 [(OpIn O [10; 3; 0] 300, OBytes (11 :: repeat 0 64))] = Some (O, t_length).
+Proof. split; vm_compute; reflexivity. Qed.
+
+Example C01_monitor_rejects_wrong_opcode :
+  monitor cfg_basic3 [(OpIn O [10; 3; 0] 23, OBytes [13; 1])] = Some (O, t_frame)
+  /\ monitor cfg_basic3 [(OpIn O [82; 3; 0; 1] 23, OBytes [19])] = Some (O, t_frame)
+  /\ monitor cfg_basic3 [(OpIn O [200] 23, OBytes [1; 200; 0; 0; 1])] = Some (O, t_frame).
+Proof. repeat split; vm_compute; reflexivity. Qed.
+
+Example C01_monitor_rejects_ill_framed_list :
+  monitor cfg_basic3 [(OpIn O [8; 1; 0; 255; 255; 0; 42] 23, OBytes [9; 4; 3; 0; 1; 2; 5])] = Some (O, t_frame_list).
+Proof. vm_compute. reflexivity. Qed.
+
+(* constants regenerated from codes.hpp / attribute.hpp / server.hpp on every run are the model's *)
+From BT Require gen.GenAttSrv.
+Example C01_constants_are_the_codes :
+  [GenAttSrv.opcode_error_response; GenAttSrv.opcode_exchange_mtu_request; GenAttSrv.opcode_find_information_request;
+   GenAttSrv.opcode_find_by_type_value_request; GenAttSrv.opcode_read_by_type_request; GenAttSrv.opcode_read_request;
+   GenAttSrv.opcode_read_blob_request; GenAttSrv.opcode_read_multiple_request; GenAttSrv.opcode_read_by_group_type_request;
+   GenAttSrv.opcode_write_request; GenAttSrv.opcode_prepare_write_request; GenAttSrv.opcode_execute_write_request;
+   GenAttSrv.opcode_write_command; GenAttSrv.opcode_confirmation; GenAttSrv.opcode_notification; GenAttSrv.opcode_indication]
+  = [1; 2; 4; 6; 8; 10; 12; 14; 16; 18; 22; 24; 82; 30; 27; 29]
+  /\ [GenAttSrv.att_error_invalid_handle; GenAttSrv.att_error_read_not_permitted; GenAttSrv.att_error_write_not_permitted;
+      GenAttSrv.att_error_invalid_pdu; GenAttSrv.att_error_insufficient_authentication; GenAttSrv.att_error_request_not_supported;
+      GenAttSrv.att_error_invalid_offset; GenAttSrv.att_error_prepare_queue_full; GenAttSrv.att_error_attribute_not_found;
+      GenAttSrv.att_error_attribute_not_long; GenAttSrv.att_error_invalid_attribute_value_length;
+      GenAttSrv.att_error_insufficient_encryption; GenAttSrv.att_error_unsupported_group_type]
+     = [err_invalid_handle; err_read_not_permitted; err_write_not_permitted; err_invalid_pdu; err_insufficient_authentication;
+        err_request_not_supported; err_invalid_offset; err_prepare_queue_full; err_attribute_not_found; err_attribute_not_long;
+        err_invalid_attribute_value_length; err_insufficient_encryption; err_unsupported_group_type]
+  /\ GenAttSrv.default_att_mtu_size = default_att_mtu /\ GenAttSrv.collect_attributes_maximum_pdu_size = 253
+  /\ [GenAttSrv.access_result_invalid_offset; GenAttSrv.access_result_write_not_permitted; GenAttSrv.access_result_read_not_permitted;
+      GenAttSrv.access_result_invalid_attribute_value_length; GenAttSrv.access_result_attribute_not_long;
+      GenAttSrv.access_result_request_not_supported; GenAttSrv.access_result_insufficient_encryption;
+      GenAttSrv.access_result_insufficient_authentication] = [7; 3; 2; 13; 11; 6; 15; 5].
+Proof. repeat split; reflexivity. Qed.
